@@ -563,8 +563,54 @@ func c02SizeBoundaries(c *Ctx) {
 	c.dumpPartitions()
 	m := "phi([1*Chunker.max]+0|[1*len(Chunker.buf)]+0)"
 	pos := "phi([1*Chunker.min]+0|[1*phi([1*?*ssa.Phi]+1|[1*Chunker.min]+0)]+1)"
+	// refill: the comparison that leads to fillBuffer must split exactly at len(buf) < max; the
+	// other comparison of the same quantities computes m = min(max, len(buf)), where the boundary
+	// case len == max gives the same m either way (both splits are right).
+	refillOK, capOK, nRefill, nCap := true, true, 0, 0
+	fills := calls(fn, suffixed("Chunker).fillBuffer"))
+	for _, p := range partitionsIn(withClosures(fn)) {
+		t, ok := p.over(map[string]int{"Chunker.max": 1, "len(Chunker.buf)": -1})
+		if !ok || p.cmpv == nil {
+			continue
+		}
+		guardsFill := false
+		if refs := p.cmpv.Referrers(); refs != nil {
+			for _, r := range *refs {
+				iff, isIf := r.(*ssa.If)
+				if u, isNot := r.(*ssa.UnOp); isNot && u.Referrers() != nil {
+					for _, r2 := range *u.Referrers() {
+						if i2, ok := r2.(*ssa.If); ok {
+							iff, isIf = i2, true
+						}
+					}
+				}
+				if !isIf {
+					continue
+				}
+				for _, f := range fills {
+					for _, succ := range iff.Block().Succs {
+						if len(succ.Preds) == 1 && (succ == f.Block() || succ.Dominates(f.Block())) {
+							guardsFill = true
+						}
+					}
+				}
+			}
+		}
+		if guardsFill {
+			nRefill++
+			if t != 0 {
+				refillOK = false
+			}
+		} else {
+			nCap++
+			if t != 0 && t != -1 {
+				capOK = false
+			}
+		}
+	}
+	c.verdict(refillOK && nRefill >= 1, "Chunker.Next:refill", fn.Pos(), "the buffer is refilled iff len(buf) < max", "the refill test does not split at len(buf) < max: a buffer holding exactly max bytes is refilled needlessly or a shorter one is not refilled (chunk boundaries move)")
+	c.verdict(capOK && nCap >= 1, "Chunker.Next:cap", fn.Pos(), "m = min(max, len(buf))", "the upper boundary m of the chunk is not min(max, len(buf))")
 	c.boundaryRule("Chunker.Next", withClosures(fn), []boundarySpec{
-		{"refill-and-cap", map[string]int{"Chunker.max": 1, "len(Chunker.buf)": -1}, 0, 2, "refill / cap iff len(buf) < max"},
 		{"short-tail", map[string]int{"Chunker.min": 1, "len(Chunker.buf)": -1}, -1, 1, "the rest is emitted as one chunk iff len(buf) <= min"},
 		{"hard-cut", map[string]int{m: 1, pos: -1}, 1, 1, "after consuming byte pos the chunk is cut iff pos+1 >= m"},
 	})
